@@ -55,19 +55,27 @@ def run(chk):
         trip = [tuple(int(v) for v in t) for t in nb[1]]
         edges = [[t[0], t[1]] for t in trip]
         n = len(xs)
-        node_kind = rng.choice(["list", "series", "series-index"])
-        nodes = list(xs) if node_kind == "list" else (pd.Series(xs) if node_kind == "series" else pd.Series(xs, index=[f"n{i}" for i in range(n)]))
+        node_kind = rng.choice(["list", "series", "series-index", "tuples", "mixed", "ints"])
+        if node_kind == "tuples":          # one (CDR3A, CDR3B)-like pair per node
+            labels = [(x, f"b{i % 3}") for i, x in enumerate(xs)]
+        elif node_kind == "mixed":         # labels of several scalar types come back as they are
+            labels = [i if i % 2 == 0 else f"s{i}" for i in range(n)]
+        elif node_kind == "ints":
+            labels = [100 + i for i in range(n)]
+        else:
+            labels = list(xs)
+        nodes = labels if node_kind in ("list", "tuples", "mixed", "ints") else (pd.Series(xs) if node_kind == "series" else pd.Series(xs, index=[f"n{i}" for i in range(n)]))
         meta = {"xs": xs, "k": k, "engine": engine, "nodes": node_kind, "n_edges": len(edges)}
         ops.append({"op": "graph_clustering_cc", "n": n, "edges": edges})
         real = core.call_real(lambda: cl.graph_clustering(trip, nodes, "cc"))
-        checks.append(("cc", meta, real, edges, xs))
+        checks.append(("cc", meta, real, edges, labels))
         for method in ("fastgreedy", "multilevel", "leiden"):
             if not edges:
                 continue
             kw = {"objective_function": "modularity"} if method == "leiden" else {}
             realm = core.call_real(lambda: cl.graph_clustering(trip, nodes, method, **kw))
             ops.append({"op": "components", "n": n, "edges": edges})
-            checks.append((method, meta, realm, edges, xs))
+            checks.append((method, meta, realm, edges, labels))
     ans = core.run_driver_parallel(ops)
     for (method, meta, real, edges, xs), a in zip(checks, ans):
         n = len(xs)
@@ -89,7 +97,7 @@ def run(chk):
             want_part = partition_of([(p, l) for p, l in want])
             want_nodes = [xs[p] for p, _l in want]
             # positions: the i-th returned row corresponds to want[i] (same order)
-            ok = got_nodes == want_nodes and len(got_labels) == len(want)
+            ok = got_nodes == want_nodes and [type(g) for g in got_nodes] == [type(w) for w in want_nodes] and len(got_labels) == len(want)
             if ok:
                 got_part = partition_of([(want[i][0], got_labels[i]) for i in range(len(want))])
                 ok = got_part == want_part
@@ -151,12 +159,26 @@ def run(chk):
                           "pairwise distances, one label per input in input order", {**meta, "real": [int(c) for c in clus], "want": [int(c) for c in wc]})
         if method == "single":
             trip = nn.symdel(xs, max_edits=t)
+            from scipy.spatial.distance import squareform as _sq
+            dm = [[str(int(v)) for v in row] for row in _sq(vec).tolist()]
             cops.append({"op": "components", "n": len(xs), "edges": [[int(q), int(r)] for q, r, _d in trip]})
-            cmeta.append((meta, [int(c) for c in clus]))
-    for (meta, clus), a in zip(cmeta, core.run_driver_parallel(cops)):
+            cops.append({"op": "single_linkage", "dm": dm, "t": str(t)})
+            cops.append({"op": "single_linkage", "dm": dm})
+            cmeta.append((meta, [int(c) for c in clus], [float(h) for h in np.asarray(link)[:, 2]]))
+    cans = core.run_driver_parallel(cops)
+    for i, (meta, clus, heights) in enumerate(cmeta):
+        a, flat, hs = cans[3 * i], cans[3 * i + 1], cans[3 * i + 2]
         if partition_of(list(enumerate(clus))) != partition_of(list(enumerate(a[1]))):
             chk.violation("C15|hierarchical_clustering|single-linkage-vs-components", "single linkage at distance t does not give the "
                           "connected components of the max_edits = t neighbour graph", {**meta, "clusters": clus, "components": a[1]})
+        # the modelled agglomeration (C15_single_linkage*): same flat partition, same merge heights as SciPy's linkage matrix
+        model_part = sorted(sorted(c) for c in flat[1])
+        if partition_of(list(enumerate(clus))) != model_part:
+            chk.violation("C15|hierarchical_clustering|single-linkage-vs-model", "the flat single-linkage clusters differ from the modelled agglomeration cut at t",
+                          {**meta, "clusters": clus, "model": model_part})
+        if [float(core.frac(h)) for h in hs[1]] != heights:
+            chk.violation("C15|hierarchical_clustering|single-linkage-heights", "the merge heights of the linkage matrix differ from the modelled dendrogram",
+                          {**meta, "real": heights, "model": [float(core.frac(h)) for h in hs[1]]})
     # explicit Metric objects, same data, DIFFERENT weights in consecutive calls (a stale distance cache would show here)
     from pyrepseq.metric import WeightedLevenshtein
     wops, wmeta = [], []
@@ -183,6 +205,41 @@ def run(chk):
         if not np.allclose(real[1][0], wl) or list(real[1][1]) != list(wc):
             chk.violation("C15|hierarchical_clustering|metric-differs", "hierarchical_clustering does not use the pairwise distances of the metric it "
                           "was given (e.g. distances of an earlier call's metric)", {**meta, "real": [int(c) for c in real[1][1]], "want": [int(c) for c in wc]})
+    # TCR inputs in every accepted form with the DEFAULT metric (chosen as in pcDelta): alpha-only / beta-only / paired tables and
+    # the legacy (alphas, betas) tuple; one label per input row in input order
+    from Levenshtein import distance as levd_
+    for _ in range(10 if not thorough else 80):
+        n = rng.randint(2, 9)
+        al = [gen.mutate(rng, rng.choice(["CAVR", "CAAAA"]), "ACDV", rng.randint(0, 2)) or "C" for _ in range(n)]
+        be = [gen.mutate(rng, rng.choice(["CASSL", "CQQQQQ"]), "ACSQL", rng.randint(0, 2)) or "C" for _ in range(n)]
+        form = rng.choice(["alpha-table", "beta-table", "paired-table", "tuple", "tuple-of-series"])
+        idx = rng.sample(range(50), n)
+        if form == "alpha-table":
+            obj = pd.DataFrame({"CDR3A": al, "x": range(n)}, index=idx)
+        elif form == "beta-table":
+            obj = pd.DataFrame({"CDR3B": be, "x": range(n)}, index=idx)
+        elif form == "paired-table":
+            obj = pd.DataFrame({"CDR3A": al, "CDR3B": be}, index=idx)
+        elif form == "tuple":
+            obj = (al, be)
+        else:
+            obj = (pd.Series(al, index=idx), pd.Series(be, index=idx))
+        da = [levd_(al[i], al[j]) for i in range(n) for j in range(i + 1, n)]
+        db = [levd_(be[i], be[j]) for i in range(n) for j in range(i + 1, n)]
+        vec = np.array(da if form == "alpha-table" else (db if form == "beta-table" else [x + y for x, y in zip(da, db)]), dtype=float)
+        meth = rng.choice(["single", "average"])
+        tt = rng.choice([1, 2, 3])
+        real = core.call_real(lambda: ds.hierarchical_clustering(obj, linkage_kws=dict(method=meth), cluster_kws=dict(t=tt, criterion="distance")))
+        meta = {"alpha": al, "beta": be, "form": form, "method": meth, "t": tt}
+        chk.case(nontrivial_key=("hier-tcr", json.dumps(meta)))
+        chk.count("hierarchical:tcr-" + form)
+        wl = hc.linkage(vec, method=meth) if n > 1 else None
+        wc = hc.fcluster(wl, t=tt, criterion="distance")
+        if real[0] != "ok":
+            chk.violation(f"C15|hierarchical_clustering|tcr-{form}|raises-{real[1]}", f"hierarchical_clustering on a {form} raised {real[1]}", meta)
+        elif len(real[1][1]) != n or list(real[1][1]) != list(wc) or not np.allclose(real[1][0], wl):
+            chk.violation(f"C15|hierarchical_clustering|tcr-{form}", f"hierarchical_clustering on a {form} with the default metric is not the clustering of "
+                          "the (alpha, beta or summed) CDR3 Levenshtein distances, one label per row", {**meta, "real": [int(c) for c in real[1][1]], "want": [int(c) for c in wc]})
     # TCR table with arbitrary index: default metric chosen as in pcDelta, labels in input order
     rows = [("CAVR", "CASSL"), ("CAVK", "CASSL"), ("CAAAA", "CQQQQQ"), ("CAVR", "CASSQ")]
     df = pd.DataFrame(rows, columns=["CDR3A", "CDR3B"], index=[9, 2, 7, 4])
